@@ -413,12 +413,20 @@ impl Annotated<Schema> {
                         )
                     });
 
+                // The bindings of this instantiation must not outlive it: with `Foo<Foo<Int>>` the
+                // inner instantiation rebinds the same parameter, and the remaining fields of the
+                // outer one have to see the outer binding again.
+                let outer_type_parameters = type_parameters.clone();
+
                 collect_type_parameters(type_parameters, &data_type.typed_parameters, args);
 
-                let annotated = Schema::Data(
+                let annotated =
                     Data::from_data_type(&data_type, modules, type_parameters, definitions)
-                        .map_err(|e| e.backtrack(type_info))?,
-                );
+                        .map_err(|e| e.backtrack(type_info));
+
+                *type_parameters = outer_type_parameters;
+
+                let annotated = Schema::Data(annotated?);
 
                 Ok(Annotated {
                     title: title.or(Some(data_type.name.clone())),
